@@ -585,7 +585,7 @@ func (in *inliner) expand(s ast.Stmt, call *ast.CallExpr, callee *Func, stack []
 		if n, ok := freshObjs[obj]; ok {
 			return n
 		}
-		n := types.NewVar(v.Pos(), v.Pkg(), v.Name(), v.Type())
+		n := types.NewVar(v.Pos(), v.Pkg(), VarName(v), v.Type())
 		freshObjs[obj] = n
 		return n
 	}
@@ -1131,17 +1131,17 @@ func sroa(info *types.Info, root *Func, body *ast.BlockStmt) *ast.BlockStmt {
 	for _, sv := range cands {
 		for i := 0; i < sv.st.NumFields(); i++ {
 			f := sv.st.Field(i)
-			sv.fields = append(sv.fields, types.NewVar(sv.obj.Pos(), sv.obj.Pkg(), sv.obj.Name()+"_"+f.Name(), f.Type()))
+			sv.fields = append(sv.fields, types.NewVar(sv.obj.Pos(), sv.obj.Pkg(), VarName(sv.obj)+"_"+f.Name(), f.Type()))
 		}
 	}
 	use := func(v *types.Var, pos token.Pos) *ast.Ident {
-		id := &ast.Ident{NamePos: pos, Name: v.Name()}
+		id := &ast.Ident{NamePos: pos, Name: VarName(v)}
 		info.Uses[id] = v
 		info.Types[id] = types.TypeAndValue{Type: v.Type()}
 		return id
 	}
 	def := func(v *types.Var, pos token.Pos) *ast.Ident {
-		id := &ast.Ident{NamePos: pos, Name: v.Name()}
+		id := &ast.Ident{NamePos: pos, Name: VarName(v)}
 		info.Defs[id] = v
 		return id
 	}
